@@ -17,7 +17,8 @@ EXPLANATION = (
     "the necessary condition whose absence was the genuine defect F3, repaired in /repo."
     " (R6) sibling agreement of the binning functions: every value that reg2bin (indexer side) and reg2bins (query side) shift right and that derives from `start` / `end` has passed through exactly one `- 1`, i.e. both use the same 0-based closed interval."
     " (R7) unmapped queries test every record: in all six query_unmapped implementations the closure performing the is_unmapped() test is handed to a per-record combinator, never to a prefix combinator such as skip_while."
-    " (R8) presence table (A11): the `(Interval) -> bool` shortcut of each query filter that skips the span test is false whenever a bound is present; the table is computed from the MIR over {None, Some} x {None, Some}, rows with an unmodelled construct are not decided.")
+    " (R8) presence table (A11): the `(Interval) -> bool` shortcut of each query filter that skips the span test is false whenever a bound is present; the table is computed from the MIR over {None, Some} x {None, Some}, rows with an unmodelled construct are not decided."
+    " (R9) every chunk is entered through a seek: in both chunk readers (csi::io::Query, sync and async) State::Read is constructed only behind a seek of the reader to the chunk start.")
 ASSUMPTIONS = ["Interval::intersects and Position arithmetic in noodles-core are correct (unit-tested, value-level)"]
 NOT_DECIDED = ["completeness/soundness of reg2bin/reg2bins, chunk merging and min_offset pruning for every layout x region (the core of C04)",
                "that the chunks produced by the indexers are the true file ranges of the records",
@@ -165,6 +166,10 @@ def run(ctx):
                                                  " (rows marked ? use a construct the interpreter does not model: not decided)" if und else ""), f.loc())
     ctx.floor("C04.R8", "(Interval) -> bool helpers in the io::reader::query modules", n8, 4)
 
+    ctx.rule("C04.R9", "every chunk is entered through a seek: State::Read is constructed only behind a seek of the reader to the chunk start "
+                       "(csi::io::Query, sync and async: the chunk reader behind every indexed query)")
+    chunk_entered_by_seek_rule(ctx, "C04.R9")
+
     ctx.rule("C04.R5", "binned index min_offset is a minimum over several bins (ancestor bins hold earlier, longer records)")
     key = ("noodles_csi::binning_index::index::reference_sequence::index::binned_index::<impl noodles_csi::binning_index::index::"
            "reference_sequence::index::Index for indexmap::map::IndexMap<usize, noodles_bgzf::virtual_position::VirtualPosition>>::min_offset")
@@ -266,3 +271,34 @@ def _root_local(f, op, depth=0):
         l = C.op_local(d[3][1])
         depth += 1
     return l
+
+
+
+def chunk_entered_by_seek_rule(ctx, rule):
+    """every chunk is entered through a seek: in the chunk readers behind all indexed queries (csi::io::Query, sync and async) each
+    construction of the reading state `State::Read(chunk.end)` is dominated by a call that seeks the reader to the chunk's start.
+    A shortcut that keeps reading ('the chunk starts in the block that is already loaded') serves whatever the reader's history left
+    there: a second query on the same reader starts behind the chunk start and omits records."""
+    fb = ctx.fb
+    n = 0
+    for key, enum_key in (("<noodles_csi::io::query::Query<'_, R> as std::io::BufRead>::fill_buf", "noodles_csi::io::query::State"),
+                          ("<noodles_csi::r#async::io::query::Query<'_, R> as tokio::io::async_buf_read::AsyncBufRead>::poll_fill_buf", "noodles_csi::r#async::io::query::State")):
+        f = ctx.anchor(rule, key)
+        if f is None:
+            continue
+        n += 1
+        seeks = [b for b, c in f.calls() if re.search(r"(seek_to_virtual_position|::poll_seek|Reader::<R>::seek)$", c.get("f") or "")]
+        reads = [bi for bi, blk in enumerate(f.blocks) if not blk.get("cu") for st in blk["s"]
+                 if st[0] == "=" and st[2][0] == "agg" and st[2][1] == "adt" and st[2][2] == enum_key and st[2][3] == "Read"]
+        if not seeks or not reads:
+            ctx.violation(rule, "%s/ANCHOR-MISSING/%s/shape" % (rule, key), "%s: seek call (%d) or State::Read construction (%d) not found" % (key, len(seeks), len(reads)), f.loc())
+            continue
+        bad = [r for r in reads if not any(C.dominates(f, s_, r) for s_ in seeks)]
+        if bad:
+            ctx.violation(rule, "%s/chunk-entered-without-seek/%s" % (rule, key),
+                          "%s enters the reading state for a chunk on a path that has not sought the reader to the chunk's start: the data "
+                          "served depends on where earlier queries or reads left the reader, and records between the chunk start and that "
+                          "position are silently omitted" % key, f.loc(bad[0]))
+        else:
+            ctx.ok(rule, key + " :: State::Read only after a seek to the chunk start", "%d construction(s), %d seek call(s)" % (len(reads), len(seeks)), f.loc(reads[0]))
+    ctx.floor(rule, "chunk readers (sync, async)", n, 2)
